@@ -398,6 +398,7 @@ fn same_class(plan: &C17Plan, class: &str) -> bool {
 pub fn minimise(plan: &C17Plan, v: &C17Violation) -> (C17Plan, usize) {
     let mut budget = 300usize;
     let start = budget;
+    start_minimisation(45);
     let mut best = plan.clone();
     if let KySrc::Spec(_) = best.src {
         macro_rules! shrink_items {
